@@ -98,4 +98,4 @@ def distribution(cases):
 
 
 from tools.props import c02 as _c02
-FINDING_CLASSES = {"content-disposition-escaped-name-over-78": _c02._cdisp_escaped}
+FINDING_CLASSES = {"content-disposition-escaped-name-over-78": _c02._cdisp_escaped, "mailbox-name-start-not-folded": _c02._name_start_not_folded}
